@@ -1,6 +1,64 @@
-/-! Driver entry for property C28 (stub: not implemented yet). -/
-namespace HeartwoodModel.Driver.C28
+import HeartwoodModel.Model.Clean
+import HeartwoodModel.Driver.Util
+/-! Driver entry for C28.
 
-def run (_args : List String) : String := "unimplemented"
+Case: `<local> <delegates> <idstate> <namespaces>`
+* `local` — peer index of the storage's own node; `delegates` — comma list of peer indices;
+* `idstate` — `ok`, or `bad` when `refs/rad/id` does not lead to a loadable identity document;
+* `namespaces` — comma list (or `-`) of `<peer><v|j><m|s|c>`: `v` = the namespace is named by the peer's
+  node id, `j` = a stray directory `<id>junk`; `m`/`s`/`c` = `rad/sigrefs` missing / present and valid /
+  present but unloadable.
+Output: `err` | `removed:<remotes>` | `cleaned:<deleted>;kept:<peer><v|j>,…` (all sorted). -/
+namespace HeartwoodModel.Driver.C28
+open HeartwoodModel.Clean HeartwoodModel.Driver.Util
+
+def parseNs (s : String) : Option Ns :=
+  match s.toList.reverse with
+  | sg :: vl :: digits =>
+    match nat? (String.ofList digits.reverse) with
+    | none => none
+    | some p =>
+      let valid? : Option Bool := if vl == 'v' then some true else if vl == 'j' then some false else none
+      let sig? : Option Sig :=
+        if sg == 'm' then some .missing else if sg == 's' then some .valid
+        else if sg == 'c' then some .corrupt else none
+      match valid?, sig? with
+      | some v, some g => some { id := p, valid := v, sig := g }
+      | _, _ => none
+  | _ => none
+
+def insertSorted (x : Nat) : List Nat → List Nat
+  | [] => [x]
+  | y :: ys => if x ≤ y then x :: y :: ys else y :: insertSorted x ys
+
+def sortNats (xs : List Nat) : List Nat := xs.foldr insertSorted []
+
+/-- sort key of a namespace: `2 * id + (0 if valid else 1)` -/
+def showKept (rem : List Ns) : String :=
+  let keys := sortNats (rem.map (fun ns => 2 * ns.id + (if ns.valid then 0 else 1)))
+  if keys.isEmpty then "-" else
+  joinWith "," (keys.map (fun k => s!"{k / 2}{if k % 2 == 0 then "v" else "j"}"))
+
+def distinctNames (nss : List Ns) : Bool :=
+  let keys := nss.map (fun ns => 2 * ns.id + (if ns.valid then 0 else 1))
+  keys.length == keys.eraseDups.length
+
+def run (args : List String) : String :=
+  match args with
+  | [me, dels, idst, nss] =>
+    match nat? me, nats? dels with
+    | some me, some dels =>
+      let nssP : Option (List Ns) := if nss == "-" then some [] else (splitOn nss ',').mapM parseNs
+      match nssP with
+      | none => "bad-op"
+      | some nss =>
+        if dels.isEmpty || !(idst == "ok" || idst == "bad") || !distinctNames nss then "bad-op" else
+        let delegates := if idst == "ok" then some dels else none
+        match clean me delegates nss with
+        | (.err, _) => "err"
+        | (.removedRepo ids, _) => s!"removed:{showNats (sortNats ids)}"
+        | (.cleaned del, rem) => s!"cleaned:{showNats (sortNats del)};kept:{showKept rem}"
+    | _, _ => "bad-op"
+  | _ => "bad-op"
 
 end HeartwoodModel.Driver.C28
